@@ -147,3 +147,12 @@ impl Args {
         i % self.nshards == self.shard
     }
 }
+
+static STOP: std::sync::atomic::AtomicBool = std::sync::atomic::AtomicBool::new(false);
+/// set when a runaway session thread was left behind: the shard stops generating further cases
+pub fn request_stop() {
+    STOP.store(true, std::sync::atomic::Ordering::SeqCst);
+}
+pub fn should_stop() -> bool {
+    STOP.load(std::sync::atomic::Ordering::SeqCst)
+}
